@@ -753,7 +753,7 @@ func (s *Server) handleRequest(req *dhcpv4.DHCPv4) (*dhcpv4.DHCPv4, error) {
 				AllocatedIP: ebpf.IPToUint32(lease.IP),
 				VlanID:      pool.VlanID,
 				ClientClass: uint8(pool.ClientClass),
-				LeaseExpiry: uint64(lease.ExpiresAt.Unix()),
+				LeaseExpiry: ebpf.KernelExpiry(lease.ExpiresAt),
 				Flags:       0,
 			}
 			if err := s.loader.AddCircuitIDSubscriber(lease.CircuitID, assignment); err != nil {
@@ -1122,7 +1122,7 @@ func (s *Server) updateFastPathCache(mac net.HardwareAddr, lease *Lease, pool *P
 		AllocatedIP: ebpf.IPToUint32(lease.IP),
 		VlanID:      pool.VlanID,
 		ClientClass: uint8(pool.ClientClass),
-		LeaseExpiry: uint64(lease.ExpiresAt.Unix()),
+		LeaseExpiry: ebpf.KernelExpiry(lease.ExpiresAt),
 		Flags:       0,
 	}
 
